@@ -21,8 +21,8 @@ pub const SIZES: &[usize] = &[0, 1, 8, 100, 1199, 1200, 1201, 1472, 4096, 9000, 
 pub struct SessionSpec {
     pub listener: u8,
     pub connector: u8,
-    /// (origin index, size selector)
-    pub sends: Vec<(u8, u8)>,
+    /// (origin index, size): values below 12 select from SIZES, anything else is the size itself
+    pub sends: Vec<(u8, u16)>,
     /// close the client socket right after the last send, while the (slow) reply is in flight
     pub vanish: bool,
     pub enforce_client: bool,
@@ -37,7 +37,7 @@ pub struct Case {
 }
 
 pub fn case_strategy() -> impl Strategy<Value = Case> {
-    let s = (0u8..3, 0u8..5, prop::collection::vec((0u8..3, 0u8..12), 1..7), prop::bool::weighted(0.2), any::<bool>(), prop::bool::weighted(0.3)).prop_map(|(listener, connector, sends, vanish, enforce_client, burst)| SessionSpec {
+    let s = (0u8..3, 0u8..5, prop::collection::vec((0u8..3, prop_oneof![3 => 0u16..12, 2 => 12u16..5000, 1 => 1100u16..1200, 1 => 2250u16..2350]), 1..7), prop::bool::weighted(0.2), any::<bool>(), prop::bool::weighted(0.3)).prop_map(|(listener, connector, sends, vanish, enforce_client, burst)| SessionSpec {
         listener,
         connector,
         sends,
@@ -339,7 +339,7 @@ pub async fn run_case(fx: &Fx, c: &Case, base_tag: u32) -> Result<(bool, serde_j
         for (round, (oi, sz)) in s.sends.iter().enumerate() {
             let oi = if lk == 1 { 0 } else { (*oi % 3) as usize };
             // small datagrams only: a burst of large ones may legitimately overflow a socket buffer
-            let size = [9usize, 100, 1199, 1200, 1201, 1472][(*sz as usize) % 6];
+            let size = if *sz < 12 { [9usize, 100, 1199, 1200, 1201, 1472][(*sz as usize) % 6] } else { (*sz as usize).min(1472) };
             let p = payload_for(base_tag + si as u32, round as u32, size, false);
             sent[si].push((oi, p.clone()));
             let mut reply = vec![fx.origins[oi].tag];
@@ -386,7 +386,7 @@ pub async fn run_case(fx: &Fx, c: &Case, base_tag: u32) -> Result<(bool, serde_j
             let (oi, sz) = s.sends[round];
             let lk = s.listener % 3;
             let oi = if lk == 1 { 0 } else { (oi % 3) as usize };
-            let mut size = SIZES[(sz as usize) % SIZES.len()];
+            let mut size = if sz < 12 { SIZES[sz as usize] } else { sz as usize };
             if lk == 0 {
                 size = size.min(65507 - 10 - 1);
             }
@@ -495,7 +495,7 @@ impl SubCheck for UdpCheck {
         "paths"
     }
     fn rule(&self) -> String {
-        "two real proxies (A in front of B, B with socks / http / quic listeners): every UDP listener {SOCKS5 UDP ASSOCIATE with enforceUdpClient off/on, reverse-UDP, HTTP CONNECT with Proxy-Protocol: udp (RPFM frames inline)} x upstream {direct, socks5->B, http->B inline, QUIC datagrams->B, QUIC inline->B} once paced and once as a burst of six (enumerated), then generated cases of 1-5 concurrent sessions with 1-6 interleaved datagrams each to three tagging echo origins on 127.0.1.1-3, payload sizes from {0, 1, 8, 100, 1199, 1200, 1201, 1472, 4096, 9000, 30000, 65000}, sessions that vanish while a slow reply is in flight, and burst sessions whose 1-6 datagrams (<= 1472 bytes) are sent back to back (inline: in one write) with the replies judged as a multiset; oracle: every datagram (incl. the first of a session and multi-fragment ones) reaches the addressed origin exactly once with identical payload, every reply returns to the owning client labelled with the replying origin's address, no origin ever receives a datagram nobody sent (no phantom after a receive error); non-trivial = >= 2 interleaved sessions, a vanishing client, a burst of >= 2, or a payload above 1200 bytes".into()
+        "two real proxies (A in front of B, B with socks / http / quic listeners): every UDP listener {SOCKS5 UDP ASSOCIATE with enforceUdpClient off/on, reverse-UDP, HTTP CONNECT with Proxy-Protocol: udp (RPFM frames inline)} x upstream {direct, socks5->B, http->B inline, QUIC datagrams->B, QUIC inline->B} once paced and once as a burst of six (enumerated), then generated cases of 1-5 concurrent sessions with 1-6 interleaved datagrams each to three tagging echo origins on 127.0.1.1-3, payload sizes from {0, 1, 8, 100, 1199, 1200, 1201, 1472, 4096, 9000, 30000, 65000} or arbitrary in 12..5000 (biased to 1100-1200 and 2250-2350), plus per pairing one paced session sweeping every size in 1120..1164, 2285..2304 and 1465..1474 (fragment boundaries), sessions that vanish while a slow reply is in flight, and burst sessions whose 1-6 datagrams (<= 1472 bytes) are sent back to back (inline: in one write) with the replies judged as a multiset; oracle: every datagram (incl. the first of a session and multi-fragment ones) reaches the addressed origin exactly once with identical payload, every reply returns to the owning client labelled with the replying origin's address, no origin ever receives a datagram nobody sent (no phantom after a receive error); non-trivial = >= 2 interleaved sessions, a vanishing client, a burst of >= 2, or a payload above 1200 bytes".into()
     }
     fn run(&self, part: &mut Part) {
         let n = part.tier.pick(30, 1500) as usize;
@@ -508,6 +508,8 @@ impl SubCheck for UdpCheck {
                     }
                     cases.push(Case { sessions: vec![SessionSpec { listener: l, connector: cn, sends: vec![(0, 3), (1, 5), (2, 8), (0, 9)], vanish: false, enforce_client: enforce, burst: false }] });
                     cases.push(Case { sessions: vec![SessionSpec { listener: l, connector: cn, sends: vec![(0, 1), (1, 2), (2, 3), (0, 4), (1, 5), (2, 0)], vanish: false, enforce_client: enforce, burst: true }] });
+                    // every size around the first two fragment boundaries of a QUIC datagram (and of an Ethernet frame)
+                    cases.push(Case { sessions: vec![SessionSpec { listener: l, connector: cn, sends: (1120u16..1165).chain(2285..2305).chain(1465..1475).map(|z| (0u8, z)).collect(), vanish: false, enforce_client: enforce, burst: false }] });
                 }
             }
         }
